@@ -199,6 +199,7 @@ def o152(ctx):
                                                  "isinstance(input_data, list) or isinstance(input_data, np.ndarray)": True,
                                                  "len(indices) == 0": False, "numbered_from_1": flag}))
         arr = typed(Unk(sym("indices_in")), "ndarray")
+        it.numeric_syms = ("indices_in",)  # the input is an array of tilt indices
         r = it.run(q2, [arr], {"numbered_from_1": K(flag)})
         want = mk("sub", sym("indices_in"), const(1)) if flag else sym("indices_in")
         v = tm.equivalent(to_term(r.ret), want, seed_tag=q2 + str(flag))
@@ -531,4 +532,4 @@ def _obligations():
 
 
 def obligations():
-    return _obligations() + [labels_obligation("C15"), selectors_obligation("C15"), effects_obligation("C15"), plumbing_obligation("C15"), overrides_obligation("C15"), options_obligation("C15")]
+    return _obligations() + [labels_obligation("C15"), selectors_obligation("C15"), effects_obligation("C15"), plumbing_obligation("C15"), overrides_obligation("C15"), options_obligation("C15"), handlers_obligation("C15")]
